@@ -58,10 +58,36 @@ type Case struct {
 	//                     server, but differ in scheme / port.
 	// Every member keeps its own expectation. Group = id of the first member,
 	// Order = position in creation order.
+	//   forward:          all members are the upstreams of ONE forward plugin
+	//                     (fastforward.NewForward), in this order; see fwd.go.
 	GroupKind string `json:"group_kind,omitempty"`
 	Group     int    `json:"group,omitempty"`
 	Order     int    `json:"order,omitempty"`
 	GroupSize int    `json:"group_size,omitempty"`
+
+	// ---- option dimension (fwd.go); zero values = the phase-1 behaviour ----
+	// Scheme is always the EFFECTIVE scheme. BaseViaOpt: the helper alias is not
+	// written into the url ("tcp://", "tls://", "https://") but expressed through
+	// enable_pipeline / enable_http3.
+	BaseViaOpt     bool `json:"alias_via_option,omitempty"`
+	EnablePipeline bool `json:"enable_pipeline,omitempty"` // as configured (may be one the scheme ignores)
+	EnableHTTP3    bool `json:"enable_http3,omitempty"`    // as configured (may be one the scheme ignores)
+	IdleTimeout    int  `json:"idle_timeout,omitempty"`    // seconds, as configured
+	// Socks5Opt: "" = phase-1 (own proxy iff Via == socks5) | none | own | global.
+	// Via is "socks5" only if a proxy is configured AND the scheme is documented to
+	// honour it (tcp, tls, https); for udp, quic and h3 the option is documented as
+	// not implemented: the proxy is then a decoy that must not receive anything.
+	Socks5Opt string `json:"socks5_opt,omitempty"`
+	BootOpt   string `json:"bootstrap_opt,omitempty"` // "" = own | own | global | none
+	// BootVerInherit: bootstrap_version is not written on the upstream, the
+	// plugin-global one (GlobalBootVer) is in force (BootVer holds the effective one)
+	BootVerInherit bool   `json:"bootstrap_version_inherited,omitempty"`
+	MarkOpt        string `json:"so_mark_opt,omitempty"` // "" = own | own | global
+	// plugin-global options of the forward group this member belongs to
+	GlobalSocks5  bool   `json:"global_socks5,omitempty"`
+	GlobalBoot    bool   `json:"global_bootstrap,omitempty"`
+	GlobalBootVer int    `json:"global_bootstrap_version,omitempty"`
+	Focus         string `json:"focus,omitempty"` // the option whose presence pattern the group varies, e.g. "dial_addr:+-+"
 }
 
 // siblingSuffix goes into the violation keys of group members (the first member
@@ -72,6 +98,9 @@ func (c *Case) siblingSuffix() string {
 	}
 	if c.GroupKind == "same-host" {
 		return "-sibling-same-host"
+	}
+	if c.GroupKind == "forward" {
+		return "-forward-plugin-member"
 	}
 	return "-" + []string{"first", "second", "third"}[c.Order] + "-upstream-shared-tlsconfig"
 }
@@ -557,11 +586,26 @@ func fill(r *rand.Rand, c *Case) {
 	c.render()
 }
 
+// writtenScheme: the scheme as it appears in the url.
+func (c *Case) writtenScheme() string {
+	if c.BaseViaOpt {
+		switch c.Scheme {
+		case "tcp+pipeline":
+			return "tcp"
+		case "tls+pipeline":
+			return "tls"
+		case "h3":
+			return "https"
+		}
+	}
+	return c.Scheme
+}
+
 // render writes the address string from the structured members.
 func (c *Case) render() {
 	var sb strings.Builder
-	if c.Scheme != "" {
-		sb.WriteString(c.Scheme)
+	if ws := c.writtenScheme(); ws != "" {
+		sb.WriteString(ws)
 		sb.WriteString("://")
 	}
 	if c.Bracket {
@@ -757,5 +801,5 @@ func (c *Case) formKey() string {
 
 func (c *Case) classFP() string {
 	return strings.Join([]string{schemeName(c.Scheme), c.HostClass, c.PortClass, c.DialKind, c.Via, c.GroupKind, fmt.Sprint(c.Order),
-		fmt.Sprint(c.BootVer), fmt.Sprint(c.Path != ""), fmt.Sprint(c.TC)}, "|")
+		fmt.Sprint(c.BootVer), fmt.Sprint(c.Path != ""), fmt.Sprint(c.TC), c.optFP()}, "|")
 }
